@@ -198,3 +198,42 @@ def check(run, prog, tier):
             run.ob("C07-d", inst, not why, "call_origin = %s is consumed by the next apply_low with nothing in between" % show(n["R"]) if not why else "call_origin = %s: %s" % (show(n["R"]), why[0]), f.file, n.get("l"), f.name,
                    what="%s sets call_origin but %s" % (f.name, why[0] if why else ""))
     run.need(stores >= 4, "stores to call_origin (found %d)" % stores)
+
+    # ---- C07-e entering an inherited program accumulates the inherit entry's offsets
+    run.rule("C07-e", "stores to the globals function_index_offset / variable_index_offset: a value taken from an inherit_t entry is always ADDED to the current offset (an inherit entry's offsets are relative to the inheriting program, which itself may sit at a non-zero offset in the object); function and variable offsets are updated as a pair from the same entry", 8)
+    IREC = ("inherit_s", "inherit_t")
+    ns = 0
+    for f in sorted(prog.functions(), key=lambda x: (x.file, x.line)):
+        stores = [(b, i, n) for b, i, n in f.nodes() if n.get("k") == "Asg" and strip(n["L"]).get("k") == "Ref" and strip(n["L"]).get("d") in ("global", "static") and strip(n["L"]).get("n") in ("function_index_offset", "variable_index_offset")]
+        if not stores:
+            continue
+        run.saw(f)
+        ordn = {}
+        for b, i, n in sorted(stores, key=lambda x: (x[2].get("l") or 0, strip(x[2]["L"]).get("n"))):
+            ns += 1
+            g = strip(n["L"]).get("n")
+            o = ordn.get(g, 0)
+            ordn[g] = o + 1
+            rhs = n["R"]
+            from_inherit = [x for x in walk(rhs) if x.get("k") == "Mem" and x.get("rec") in IREC and x.get("f") in ("function_index_offset", "variable_index_offset")]
+            inst = "offset-store:%s:%s:%s:%d" % (rel(f.file), f.name, g, o)
+            if not from_inherit:
+                run.ob("C07-e", inst, True, "%s %s %s: not taken from an inherit entry (reset, frame restore, or the offset computed by find_function)" % (g, n.get("op"), show(rhs)[:40]), f.file, n.get("l"), f.name)
+                continue
+            accum = n.get("op") == "+=" or any(x.get("k") == "Ref" and x.get("n") == g for x in walk(rhs))
+            right_field = all(x.get("f") == g for x in from_inherit)
+            # the sibling offset is updated from the same entry in the same block
+            other = "variable_index_offset" if g == "function_index_offset" else "function_index_offset"
+            base = show(strip(from_inherit[0]["b"]))
+            sib = any(n2.get("k") == "Asg" and strip(n2["L"]).get("n") == other and any(x.get("k") == "Mem" and x.get("rec") in IREC and x.get("f") == other and show(strip(x["b"])) == base for x in walk(n2["R"])) for b2, i2, n2 in f.nodes() if b2.id == b.id)
+            ok = accum and right_field and sib
+            why = []
+            if not accum:
+                why.append("assigned, not added: the caller's own offset inside the object is dropped")
+            if not right_field:
+                why.append("takes the other kind of offset")
+            if not sib:
+                why.append("%s is not updated from the same inherit entry next to it" % other)
+            run.ob("C07-e", inst, ok, "%s %s %s%s" % (g, n.get("op"), show(rhs)[:50], "" if ok else ": " + "; ".join(why)), f.file, n.get("l"), f.name,
+                   what="%s sets %s from an inherit entry incorrectly (%s): with multiple inheritance the callee runs with another program's functions and variables" % (f.name, g, "; ".join(why)))
+    run.need(ns >= 8, "stores to the offset globals (found %d)" % ns)
